@@ -325,9 +325,9 @@ def getitem(vm, s, c, k):
         if t is VInst:
             raise Unsupported(f"__getitem__ on {c!r}")
         raise Unsupported(f"subscript of {c!r}")
+    if isinstance(c, type):  # generic alias  Foo[...]: the type parameters do not matter at run time
+        return c
     if type(k) is Sym or isinstance(k, VObj):
-        if isinstance(c, type):  # generic alias  Foo[...]
-            return c
         raise Unsupported(f"subscript {c!r}[{k!r}]")
     try:
         return vm.wrap_native(c[k])
